@@ -65,7 +65,9 @@ RULES = {
            "in graphs over options, applications, switch, coalesce, lists): the messages emitted are exactly those of the specification's "
            "MustLog (lower bound, Surely) / MayLog (upper bound, Visit) / NoLog (log_first=False and the wrapped evaluation fails), at the "
            "given level, in the given order relative to the wrapped node, each one observed as a LogRequest by a pass-through handler, and "
-           "none with logging disabled by option or context (same value); non-trivial = graph contains a dataset / a Logged node",
+           "none with logging disabled by option or context (same value); family logeffects (datasets whose effects include a LogEffect): "
+           "a LogEffect record exactly for the datasets computed with effects and logging on, none with either disabled; "
+           "non-trivial = graph contains a dataset / a Logged node",
     "C19": "family classes: every dataset class of 1-3 members (options with flat and dotted keys, options with defaults, datasets, "
            "function applications, constants; the first member inherited from a base class) x every dictionary; attributes of the "
            "instance = the specification's Eval of each member; class-level keys/validate/explain = the specification's union; for "
@@ -213,6 +215,14 @@ FAMILIES = {
               "thorough": [dict(mode="bfs", max_nodes=4), dict(mode="sim", max_nodes=6, min_nodes=4, num=30000, depth=18, procs=12)]},
         shards=[["logged"], ["apply", "fnapp"], ["switch"], ["coalesce"], ["coll"]],
         shard_defs={"logged": "SK_logged", "apply": "SK_applyfn", "switch": "SK_switch", "coalesce": "SK_coalesce", "coll": "SK_coll"}),
+    "logeffects": dict(
+        consts=dict(Raises="NoRaises", Kinds="FK_KindsB", Paths="FK_Paths", Consts="FK_Consts", Tmpls="None0",
+                    Fns="FK_Fns", Bodies="FK_Bodies", DispVals="NoSeq", Preds="None0", Presets="FK_Presets",
+                    MapPaths="None0", Leaves="FK_Leaves", Cbs="FK_Cbs", EffSets="FKL_Effs", Caches="FK_Caches"),
+        sharing=True,
+        runs={"quick": [dict(mode="sim", max_nodes=4, min_nodes=2, num=4000, depth=14, procs=8)],
+              "thorough": [dict(mode="sim", max_nodes=5, min_nodes=2, num=30000, depth=16, procs=12)]},
+        shards=[["ds"]], shard_defs={"ds": "SK_ds"}),
     "maps": dict(
         consts=dict(Raises="NoRaises", Kinds="FM_Kinds", Paths="FM_Paths", Consts="FM_Consts", Tmpls="None0",
                     Fns="None0", Bodies="FM_Bodies", DispVals="NoSeq", Preds="None0", Presets="None0",
